@@ -276,6 +276,12 @@ static void gen_pair(Out& out, Rng& g, bool with_lh) {
     int64_t span = SPANS[g.below(S == 1000 ? 3 : 5)];
     // beyond Clipper's loRange (2^30 - 1 after scaling) the slope comparisons switch to 128-bit arithmetic
     if (S == 1 && sub == 0 && g.chance(8)) span = (int64_t)1 << (31 + (int)g.below(3));
+    // ... and it must do so for each of the four directions on its own: a layout that is large in one direction only
+    int lopsided = 0;  // 1..4: +x, -x, +y, -y
+    if (S == 1 && sub == 0 && span <= (1 << 20) && g.chance(8)) {
+        lopsided = 1 + (int)g.below(4);
+        span = 1 << 20;
+    }
     std::vector<IPoly> ia, ib;
     std::string scen;
     auto& pool = pools.keyholes[S];
@@ -402,6 +408,21 @@ static void gen_pair(Out& out, Rng& g, bool with_lh) {
             }
         }
     }
+    if (lopsided) {
+        // the short axis stays within 2^29 (below loRange), the long one is stretched by 2^14 and shifted so that it reaches 2^35 on one side only: products of edge deltas exceed 64 bits
+        auto stretch = [&](IPoly& p) {
+            for (auto& v : p) {
+                int64_t& lng = lopsided <= 2 ? v.first : v.second;
+                int64_t& sht = lopsided <= 2 ? v.second : v.first;
+                sht *= 512;
+                lng = lng * 16384 + ((int64_t)1 << 34);
+                if (lopsided == 2 || lopsided == 4) lng = -lng;
+            }
+        };
+        for (auto& p : ia) stretch(p);
+        for (auto& p : ib) stretch(p);
+        scen += "+lopsided";
+    }
     DGroup A, B;
     for (auto& p : ia) A.push_back(to_double(p, (double)S, sub));
     for (auto& p : ib) B.push_back(to_double(p, (double)S, sub));
@@ -411,6 +432,29 @@ static void gen_pair(Out& out, Rng& g, bool with_lh) {
         if (g.chance(30) && !pool.empty()) B.push_back(pool[g.below(pool.size())]);
     }
     run_bool(out, g, A, B, S, scen + (sub ? "+offgrid" : ""), with_lh);
+}
+
+// a box that is 2^30 wide and 2^34 long in ONE direction, with a nearly axis-parallel short side, against a small square: products of
+// its edge deltas are exact multiples of 2^64, so 64-bit slope tests (instead of Clipper's 128-bit ones) see genuine corners as collinear
+static void gen_lopsided_box(Out& out, Rng& g, int dir) {
+    const int64_t Bx = (int64_t)1 << 29, H = (int64_t)1 << 34;
+    IPoly a = {{-Bx, -H}, {Bx, -H}, {Bx, -(int64_t)g.range(1, 9)}, {-Bx, 0}};  // long towards -y
+    IPoly b = g_rect(-100, 10, 200, 10);
+    auto turn = [&](IPoly& p) {
+        for (auto& v : p) {
+            int64_t x = v.first, y = v.second;
+            switch (dir) {
+                case 0: break;                                  // -y
+                case 1: v.first = x; v.second = -y; break;      // +y
+                case 2: v.first = y; v.second = x; break;       // -x
+                default: v.first = -y; v.second = x; break;     // +x
+            }
+        }
+    };
+    turn(a);
+    turn(b);
+    DGroup A{to_double(a, 1.0, 0)}, B{to_double(b, 1.0, 0)};
+    run_bool(out, g, A, B, 1, "lopsided-box", false);
 }
 
 // ---------------------------------------------------------------- replay / corpus
@@ -494,6 +538,7 @@ int main(int argc, char** argv) {
     }
     for (auto& c : load_corpus(argc > 4 ? argv[4] : NULL)) run_case(out, g, c.first, c.second);
     long N = g_thorough ? 8000 : 260;
+    for (int dir = 0; dir < 4; dir++) gen_lopsided_box(out, g, dir);
     for (long i = 0; i < N; i++) {
         gen_pair(out, g, true);
         if (i % 2 == 0) lh_synthetic(out, g);
